@@ -411,3 +411,6 @@ def refused_bodies(fl: int, kind: int, n: int, lim: int) -> str:
     post: _ == ''
     """
     return verdict(_refused(fl, kind, n, lim))
+
+
+from vf.validate.stubs import ALL as VALIDATE  # noqa: E402  (stub-vs-real conformance, run before the obligations)
